@@ -94,7 +94,27 @@ func c18One(c *ctx, rn c18Run) {
 				return
 			}
 			echoConns.Add(1)
-			go func() { defer ec.Close(); io.Copy(ec, ec) }()
+			go func() {
+				defer ec.Close()
+				// echo; a client that asked to be held keeps the connection after its FIN (a silent upstream that never closes)
+				hold := false
+				buf := make([]byte, 32<<10)
+				for {
+					n, err := ec.Read(buf)
+					if n > 0 {
+						if strings.Contains(string(buf[:n]), "hold\n") {
+							hold = true
+						}
+						ec.Write(buf[:n])
+					}
+					if err != nil {
+						break
+					}
+				}
+				if hold {
+					time.Sleep(60 * time.Second)
+				}
+			}()
 		}
 	}()
 	var scripts sync.Map
@@ -261,6 +281,17 @@ func c18One(c *ctx, rn c18Run) {
 				}
 				ready()
 				switch mode {
+				case "halfclosed":
+					// the client has sent everything and half-closed; the upstream stays open and silent
+					conn.Write([]byte("hold\n"))
+					conn.SetReadDeadline(time.Now().Add(10 * time.Second))
+					br.ReadString('\n')
+					if tc, ok := conn.(*net.TCPConn); ok {
+						tc.CloseWrite()
+					}
+					conn.SetReadDeadline(time.Now().Add(60 * time.Second))
+					br.ReadString('\n') // ends when fabio closes the tunnel
+					return "ended"
 				case "idle":
 					conn.SetReadDeadline(time.Now().Add(60 * time.Second))
 					br.ReadString('\n') // ends when fabio closes the tunnel
@@ -286,6 +317,7 @@ func c18One(c *ctx, rn c18Run) {
 			})
 		}
 		tunnel("tcp", "idle", -1)
+		tunnel("tcp", "halfclosed", -1)
 		tunnel("tcp", "exchanging", -1)
 		tunnel("tcp", "finishing", 0.3)
 		tunnel("sni", "idle", -1)
